@@ -619,6 +619,20 @@ pub fn run(tier: Tier) -> i32 {
 fn query_panics(e: &Exec, s: Side) -> Option<String> {
     use crate::exec::RealEnd;
     let probe = |name: &str, f: &dyn Fn()| -> Option<String> { catch_unwind(AssertUnwindSafe(f)).err().map(|p| format!("{name}: {}", panic_msg(p))) };
+    if let Some(p) = match &e.real[s.idx()] {
+        RealEnd::Hs(h) => probe("Debug::fmt", &|| {
+            let _ = format!("{h:?}");
+        }),
+        RealEnd::T(t) => probe("Debug::fmt", &|| {
+            let _ = format!("{t:?}");
+        }),
+        RealEnd::S(t) => probe("Debug::fmt", &|| {
+            let _ = format!("{t:?}");
+        }),
+        RealEnd::Gone => None,
+    } {
+        return Some(p);
+    }
     match &e.real[s.idx()] {
         RealEnd::Hs(h) => probe("is_my_turn", &|| {
             let _ = h.is_my_turn();
